@@ -199,6 +199,14 @@ pub fn child_main(req_path: &str) -> ! {
     };
     drop(req_bytes);
 
+    // a genuine hang burns CPU: bound it (the wall-clock watchdog of the parent only guards
+    // against a stalled host)
+    unsafe {
+        let secs = 10 + (req.steps.len() as u64) / 4;
+        let lim = libc::rlimit { rlim_cur: secs, rlim_max: secs + 2 };
+        libc::setrlimit(libc::RLIMIT_CPU, &lim);
+    }
+
     // child's own stderr (panic messages from std, "has overflowed its stack", aborts)
     let cerr = raw_create(&format!("{}/child.stderr", req.res_dir));
     unsafe {
